@@ -455,6 +455,16 @@ def typenames(run):
                             if st["k"] == "assign" and st["rv"]["k"] == "agg" and st["rv"].get("adt", "").endswith("AstRuleParameterType"):
                                 got[chr(int(v))] = st["rv"]["variant"]
         run.check(got == {"u": "Unsigned", "s": "Signed", "i": "Integer"}, R, R + "|typename|table", f.loc(), "u/s/i map to Unsigned/Signed/Integer", "type name table is %s" % got)
+        # a name is an integer type by its letter and its decimal width alone -- not by how many characters it has
+        from rules_sym import deep as _deep
+        lens = []
+        for bi, si, st in f.stmts():
+            if st["k"] == "assign" and st["rv"]["k"] == "binop" and st["rv"]["op"] in ("Lt", "Le", "Gt", "Ge", "Eq", "Ne"):
+                for o in (st["rv"]["l"], st["rv"]["r"]):
+                    if re.search(r"str::len\(P\d+\)|String::len\(P\d+\)|Iterator::count\(str::chars\(P\d+\)\)", _deep(f, o, 4)):
+                        lens.append(f.loc(st["span"]))
+        run.check(not lens, R, R + "|typename|no-length-test", f.loc(), "no test of the length of a type name decides whether it is an integer type",
+                  "interpret_typename tests the length of the type name (%s): integer types of some widths (`u128`, `s1024`) would be taken for sub-rule names" % ", ".join(lens))
     # #d<N>
     for g in prog.real_fns():
         if g.id.startswith("asm::parser::directive::parse") or g.id.startswith("asm::parser::directive_data::parse"):
